@@ -1,5 +1,5 @@
 #!/bin/bash
-# tryequiv_all.sh [dir] [jobs]: every refactoring patch under <dir>/<Cxx>/*.diff against EVERY property check.
+# tryequiv_all.sh [dir] [jobs]: every refactoring patch under <dir>/<Cxx>/*.diff against EVERY property check (one load per patch: verifcheck -all).
 set -u
 export GOFLAGS=-mod=mod GOPROXY=off GOSUMDB=off GOTOOLCHAIN=local; unset GOWORK
 D=${1:-/tmp/equiv}; J=${2:-6}
@@ -11,10 +11,8 @@ one() {
   if ! git -C "$WT" apply "$m" 2>/dev/null; then echo "SKIP $(basename $(dirname $m))/$(basename $m) (does not apply)"; rm -rf "$WT"; return; fi
   if ! (cd "$WT" && go build ./... >/dev/null 2>&1); then echo "SKIP $(basename $(dirname $m))/$(basename $m) (does not build)"; rm -rf "$WT"; return; fi
   res=""
-  for p in $($VERIF/bin/verifcheck -list); do
-    out=$("$VERIF/bin/verifcheck" -property "$p" -repo "$WT" -verif "$VERIF" -no-evidence 2>&1); rc=$?
-    if [ $rc -ne 0 ]; then res="$res $p[rc=$rc: $(grep -B1 '^VIOLATION' <<<"$out" | grep -v '^VIOLATION\|^--' | head -1 | cut -c1-220)]"; fi
-  done
+  out=$("$VERIF/bin/verifcheck" -all -repo "$WT" -verif "$VERIF" 2>&1); rc=$?
+  if [ $rc -ne 0 ]; then res=" [rc=$rc: $(grep -B1 '^VIOLATION\|^ERROR' <<<"$out" | grep -v '^VIOLATION\|^--' | head -3 | cut -c1-260 | tr '\n' ' ')]"; fi
   if [ -z "$res" ]; then echo "SILENT $(basename $(dirname $m))/$(basename $m)"; else echo "ALARM $(basename $(dirname $m))/$(basename $m) ::$res"; fi
   rm -rf "$WT"
 }
